@@ -22,6 +22,8 @@ func getID(match [][]byte) int {
 }
 
 func (d *Driver) read() {
+	defer close(d.readDone)
+
 	var b []byte
 
 	patterns := getNetconfPatterns()
